@@ -415,6 +415,20 @@ func (c *fctx) lookupVar(fr *frame, name string, at *ssa.BasicBlock, phiOverride
 			}
 		}
 	}
+	// a variable that lives in a cell (address-taken or captured: ssa.Alloc named after it) is the content of that cell;
+	// the DebugRef of its definition names only the initial value
+	for b := at.Idom(); b != nil; b = b.Idom() {
+		for _, in := range b.Instrs {
+			if al, ok := in.(*ssa.Alloc); ok && al.Comment == name {
+				if v, ok := fr.vals[al]; ok {
+					if v.a != nil {
+						return v, al.Type(), true
+					}
+					return val{a: c.addrOfPointer(v, al.Type())}, al.Type().(*types.Pointer).Elem(), true
+				}
+			}
+		}
+	}
 	start := at.Idom()
 	if fr.rfAt != nil && fr.rfAt.Block() == at {
 		start = at // range-over-func site: the variables live in the block of the call, before it
@@ -474,7 +488,15 @@ func (c *fctx) lookupVar(fr *frame, name string, at *ssa.BasicBlock, phiOverride
 	}
 	for _, fv := range fn.FreeVars {
 		if fv.Name() == name {
-			return fr.vals[fv], fv.Type(), true
+			// a captured variable is the content of its cell
+			v := fr.vals[fv]
+			if pt, ok := fv.Type().(*types.Pointer); ok {
+				if v.a != nil {
+					return v, fv.Type(), true
+				}
+				return val{a: c.addrOfPointer(v, fv.Type())}, pt.Elem(), true
+			}
+			return v, fv.Type(), true
 		}
 	}
 	return val{}, nil, false
@@ -702,6 +724,10 @@ func (p *Prog) VerifyFunc(fn *ssa.Function) *FuncVC {
 	entry := st.clone()
 	for _, r := range ct.Requires {
 		c.assume(e.tr(r.E).t)
+	}
+	for _, gv := range ct.Given {
+		c.assume(e.tr(gv.E).t)
+		c.used["definition:"+shortFn(fn.String())+": "+gv.Src] = true
 	}
 	for _, d := range ct.Decr {
 		c.fnDecr0 = append(c.fnDecr0, c.define("fdecr0", "Int", e.tr(d).t))
